@@ -306,6 +306,7 @@ func runC18(r *Report) {
 		})
 	}
 	checkZeroExpiryGuard(r, "R-C18-3", secPkg, "BanRecord", "ExpiresAt")
+	checkKeepExistingEvaluatesExpiry(r, "R-C18-3")
 	checkZeroExpiryGuard(r, "R-C18-3", secPkg, "IPRecord", "ExpiresAt")
 	r.Floor("R-C18-3", 6, "threshold and expiry-guard obligations")
 
@@ -715,4 +716,126 @@ func countOrigin(v ssa.Value, depth int) string {
 		}
 	}
 	return originSummary(v)
+}
+
+// checkKeepExistingEvaluatesExpiry: a function that installs a ban / blacklist record (a map update on
+// a table of records with an ExpiresAt) may decide to keep the record it found instead - but only a
+// record it has shown to be still in force: every return that skips the installation after the lookup
+// found a record is entered, on each way into it, past a test of that record's deadline (it is the
+// zero time = permanent, or it was compared with the clock or with the new deadline).  A record that
+// merely exists may be an expired one the asynchronous clean-up has not collected yet; keeping it
+// drops the new ban.
+func checkKeepExistingEvaluatesExpiry(r *Report, rule string) {
+	n := 0
+	for _, f := range r.P.FuncsIn(secPkg) {
+		if f.Parent() != nil || len(f.Blocks) == 0 {
+			continue
+		}
+		var installs []*ssa.MapUpdate
+		Instrs(f, func(in ssa.Instruction) {
+			if mu, ok := in.(*ssa.MapUpdate); ok {
+				if t, _, _, ok := FieldOf(mu.Map); ok && (t == "BruteForceProtector" || t == "IPManager") {
+					if _, en := recvTypeName(mu.Value.Type()); en == "BanRecord" || en == "IPRecord" {
+						installs = append(installs, mu)
+					}
+				}
+			}
+		})
+		if len(installs) == 0 {
+			continue
+		}
+		// the comma-ok lookups of the same table
+		var found []ssa.Value
+		Instrs(f, func(in ssa.Instruction) {
+			if ex, ok := in.(*ssa.Extract); ok && ex.Index == 1 {
+				if lk, ok := ex.Tuple.(*ssa.Lookup); ok && lk.X == installs[0].Map || (ok && sameExpr(lk.X, installs[0].Map)) {
+					found = append(found, ex)
+				}
+			}
+		})
+		if len(found) == 0 {
+			continue
+		}
+		deadlineTested := func(fs []Fact) bool {
+			for _, ft := range fs {
+				c, ok := stripValue(ft.Cond).(*ssa.Call)
+				if !ok {
+					continue
+				}
+				if !CalleeOf(c).Is("time:Time.IsZero", "time:Time.After", "time:Time.Before") {
+					continue
+				}
+				for _, a := range c.Call.Args {
+					if _, fld, _, ok := FieldOf(a); ok && fld == "ExpiresAt" {
+						if CalleeOf(c).Name == "IsZero" && !ft.Pol {
+							continue // "not permanent" alone says nothing about being in force
+						}
+						return true
+					}
+				}
+			}
+			return false
+		}
+		foundTrue := func(fs []Fact) bool {
+			for _, ft := range fs {
+				for _, fv := range found {
+					if ft.Cond == fv && ft.Pol {
+						return true
+					}
+				}
+			}
+			return false
+		}
+		for _, ret := range Returns(f) {
+			if RetErrKind(ret) == "nonnil" {
+				continue
+			}
+			// does this return skip the installation?
+			skips := true
+			for _, mu := range installs {
+				if mu.Block() == ret.Block() || mu.Block().Dominates(ret.Block()) {
+					skips = false
+				}
+			}
+			if !skips {
+				continue
+			}
+			b := ret.Block()
+			ways := [][]Fact{Facts(b)}
+			if !foundTrue(ways[0]) || !deadlineTested(ways[0]) {
+				// a join (`found && (permanent || later)`): judge each way into the block
+				ways = nil
+				for _, p := range b.Preds {
+					pf := Facts(p)
+					if len(p.Instrs) > 0 {
+						if iff, ok := p.Instrs[len(p.Instrs)-1].(*ssa.If); ok && p.Succs[0] != p.Succs[1] {
+							for si, sb := range p.Succs {
+								if sb == b {
+									c, pol := normCond(iff.Cond, si == 0)
+									pf = append(pf, expandPhiFacts([]Fact{{Cond: c, Pol: pol, If: iff}})...)
+								}
+							}
+						}
+					}
+					ways = append(ways, pf)
+				}
+			}
+			relevant, ok := false, true
+			for _, w := range ways {
+				if !foundTrue(w) {
+					continue // nothing was found on this way: an early exit for another reason
+				}
+				relevant = true
+				if !deadlineTested(w) {
+					ok = false
+				}
+			}
+			if !relevant {
+				continue
+			}
+			n++
+			r.Ob(rule, ret.Pos(), ok, "a ban request that keeps the record it found has evaluated that record's deadline on every way to this return (an expired leftover is not a ban in force)", r.P.FuncName(f), "keep-existing-evaluates-expiry")
+		}
+	}
+	r.Note("%s: %d return(s) that keep an existing ban / blacklist record examined", rule, n)
 }
